@@ -30,6 +30,8 @@ type Clients struct {
 	Gate func(ctx context.Context, c *Call)
 	// ReadGate, if set, may fail a live GET (transient read failures are faults too).
 	ReadGate func(kind Kind, ns, name string) error
+	// OnLiveRead, if set, is told what a successful live GET returned (the reconcile's view of that object from then on).
+	OnLiveRead func(kind Kind, ns, name string, obj runtime.Object)
 	k        *kubeCS
 	f        *furikoCS
 }
@@ -96,6 +98,9 @@ func (p *pods) Get(ctx context.Context, name string, _ metav1.GetOptions) (*core
 	o, err := p.c.API.GetAs(p.c.Actor, KPod, p.ns, name)
 	if err != nil {
 		return nil, err
+	}
+	if p.c.OnLiveRead != nil {
+		p.c.OnLiveRead(KPod, p.ns, name, o)
 	}
 	return o.(*corev1.Pod), nil
 }
